@@ -13,6 +13,7 @@
 #include "c03_ref.h"
 #include <openssl/x509.h>
 #include <sys/mman.h>
+#include "c10_creds.h"
 
 static int thorough;
 
@@ -369,10 +370,196 @@ static void run_case(void *ctx, mx_result_t *r)
     r->state_hash = fnv1a(kk, strlen(kk), FNV0);
 }
 
+
+/* --------------------------------------------------------------- part R: a ServerKeyExchange of ANOTHER handshake
+ * "the peer proved possession of the private key over THIS handshake's key-exchange parameters": the server's signature
+ * in ServerKeyExchange covers client_random || server_random || params.  An attacker without the key records the first
+ * flight (ServerHello .. ServerHelloDone) of an honest handshake and replays it to a fresh client, whose client_random
+ * differs.  The client must refuse the stale signature where it arrives; going on to send its ClientKeyExchange means
+ * the signature did not bind this handshake.  Credentials with SHA-256 / SHA-384 / SHA-512 certificate chains select
+ * the three digest paths of the signature (MatrixSSL signs with the hash of its certificate's signature). */
+typedef struct { const char *name; int ver, kx, cred; uint16_t suite; } r_cfg_t;
+static const r_cfg_t rcfgs[] = {
+    { "tls12-ecdhe-rsa-sha256chain", V_TLS12, KX_ECDHE_RSA, CR_RSA, TLS_ECDHE_RSA_WITH_AES_128_CBC_SHA },
+    { "tls12-ecdhe-ecdsa-p256-sha256chain", V_TLS12, KX_ECDHE_ECDSA, CR_EC256, TLS_ECDHE_ECDSA_WITH_AES_128_CBC_SHA },
+    { "tls12-ecdhe-ecdsa-p384-sha384chain", V_TLS12, KX_ECDHE_ECDSA, CR_EC384S, TLS_ECDHE_ECDSA_WITH_AES_256_GCM_SHA384 },
+    { "tls12-ecdhe-ecdsa-p521-sha512chain", V_TLS12, KX_ECDHE_ECDSA, CR_EC521S, TLS_ECDHE_ECDSA_WITH_AES_128_GCM_SHA256 },
+    { "tls11-ecdhe-rsa", V_TLS11, KX_ECDHE_RSA, CR_RSA, TLS_ECDHE_RSA_WITH_AES_128_CBC_SHA },
+    /* (DTLS is left out: the recorded flight carries the message sequence numbers of a handshake that went through the
+       cookie exchange; a fresh client treats it as messages from the future and neither accepts nor refuses it) */
+};
+#define NRCFG ((int) (sizeof(rcfgs) / sizeof(rcfgs[0])))
+
+static int r_world(world_t *w, const r_cfg_t *R, uint64_t seed, int with_server)
+{
+    const c10_cred_t *cr = &c10_creds[R->cred];
+    sslSessOpts_t so, co;
+    psCipher16_t suite = R->suite;
+    matrixSslLoadKeysOpts_t lo;
+    int rc;
+    memset(w, 0, sizeof(*w));
+    w->cfg.ver = R->ver; w->cfg.kx = R->kx;
+    w->s[1].is_server = 1;
+    buf_init(&w->trace);
+    buf_init(&w->s[0].delivered); buf_init(&w->s[1].delivered);
+    buf_init(&w->s[0].submitted); buf_init(&w->s[1].submitted);
+    env_reset(seed);
+    world_open();
+    matrixSslNewKeys(&w->s[0].keys, NULL);
+    matrixSslNewKeys(&w->s[1].keys, NULL);
+    memset(&lo, 0, sizeof(lo));
+    lo.key_type = cr->mtype;
+    rc = matrixSslLoadKeysMem(w->s[0].keys, NULL, 0, NULL, 0, cr->ca, (int32) cr->calen, &lo);
+    if (rc >= 0 && with_server)
+    {
+        rc = matrixSslLoadKeysMem(w->s[1].keys, cr->cert, (int32) cr->certlen, cr->key, (int32) cr->keylen, NULL, 0, &lo);
+    }
+    if (rc < 0)
+    {
+        return rc;
+    }
+    memset(&so, 0, sizeof(so));
+    memset(&co, 0, sizeof(co));
+    so.versionFlag = ver_flag(R->ver);
+    co.versionFlag = ver_flag(R->ver);
+    if (ver_is_dtls(R->ver))
+    {
+        matrixDtlsSetPmtu(-1);
+    }
+    if (with_server && (rc = matrixSslNewServerSession(&w->s[1].ssl, w->s[1].keys, NULL, &so)) < 0)
+    {
+        return rc;
+    }
+    return matrixSslNewClientSession(&w->s[0].ssl, w->s[0].keys, NULL, &suite, 1, other_cb, NULL, NULL, NULL, &co);
+}
+
+static void r_run_case(void *ctx, mx_result_t *r)
+{
+    const r_cfg_t *R = &rcfgs[*(int *) ctx];
+    static world_t w1, w2;
+    static unsigned char flight[16][4000];
+    int flen[16], nf = 0, i, rc, dtls = ver_is_dtls(R->ver), sent_cke = 0, guard = 0, turn = 0;
+    r->nontrivial = 1;
+    r->transitions = 2;
+    /* handshake 1: honest; record the server's first flight (for DTLS: the one after the cookie exchange) */
+    if ((rc = r_world(&w1, R, 7, 1)) < 0)
+    {
+        r->violation = 2;
+        snprintf(r->key, sizeof(r->key), "internal|stale-ske|setup|%s", R->name);
+        snprintf(r->what, sizeof(r->what), "cannot set up %s (rc %d)", R->name, rc);
+        return;
+    }
+    world_collect(&w1, 0);
+    while (guard++ < 40 && world_step(&w1, &turn))
+    {
+        wire_t *q = &w1.wire[1];
+        int k, has_shd = 0;
+        for (k = 0; k < q->n; k++)
+        {
+            rec_t *x = &q->r[(q->head + k) % W_MAXREC];
+            int hh = dtls ? 13 : 5, off = hh;
+            /* the flight that ends with ServerHelloDone (type 14) */
+            if (x->p[0] == 22)
+            {
+                while (off + 4 <= x->len)
+                {
+                    int ml = (x->p[off + 1] << 16) | (x->p[off + 2] << 8) | x->p[off + 3];
+                    if (x->p[off] == 14) has_shd = 1;
+                    off += (dtls ? 12 : 4) + ml;
+                }
+            }
+        }
+        if (has_shd)
+        {
+            for (k = 0; k < q->n && nf < 16; k++)
+            {
+                rec_t *x = &q->r[(q->head + k) % W_MAXREC];
+                if (x->len <= 4000)
+                {
+                    memcpy(flight[nf], x->p, (size_t) x->len);
+                    flen[nf++] = x->len;
+                }
+            }
+            break;
+        }
+    }
+    if (nf == 0)
+    {
+        r->violation = 2;
+        snprintf(r->key, sizeof(r->key), "internal|stale-ske|no-flight|%s", R->name);
+        snprintf(r->what, sizeof(r->what), "%s: the honest server flight was not observed", R->name);
+        world_free(&w1);
+        return;
+    }
+    /* handshake 2: a fresh client (other entropy: other client_random), no server: the attacker replays the recording */
+    if ((rc = r_world(&w2, R, 1234567, 0)) < 0)
+    {
+        r->violation = 2;
+        snprintf(r->key, sizeof(r->key), "internal|stale-ske|setup2|%s", R->name);
+        world_free(&w1);
+        return;
+    }
+    world_collect(&w2, 0);
+    if (dtls)
+    {
+        /* the client's first ClientHello is answered by the recorded flight directly (no cookie demanded by the attacker) */
+    }
+    world_wire_clear(&w2, 0);
+    for (i = 0; i < nf; i++)
+    {
+        if (w2.s[0].err_rc < 0 || w2.s[0].ssl->err != SSL_ALERT_NONE)
+        {
+            break;
+        }
+        world_feed(&w2, 0, flight[i], flen[i]);
+    }
+    {
+        wire_t *q = &w2.wire[0];
+        int k, hh = dtls ? 13 : 5;
+        for (k = 0; k < q->n; k++)
+        {
+            rec_t *x = &q->r[(q->head + k) % W_MAXREC];
+            if (x->p[0] == 22 && x->len > hh && x->p[hh] == 16 && !(dtls && (x->p[3] || x->p[4])))
+            {
+                sent_cke = 1;
+            }
+        }
+    }
+    snprintf(r->outcome, sizeof(r->outcome), "stale-ske:%s:%s:alert%d", R->name, sent_cke ? "ACCEPTED" : "refused", w2.s[0].ssl->err);
+    r->trace_hash = world_trace_hash(&w2);
+    r->state_hash = fnv1a(R->name, strlen(R->name), FNV0);
+    if (sent_cke || (w2.s[0].err_rc >= 0 && w2.s[0].ssl->err == SSL_ALERT_NONE))
+    {
+        r->violation = 1;
+        snprintf(r->key, sizeof(r->key), "server-key-exchange-of-another-handshake-accepted|%s", R->name);
+        snprintf(r->what, sizeof(r->what), "%s: a fresh client accepted the recorded ServerHello..ServerHelloDone flight of ANOTHER handshake (its ServerKeyExchange signature was made for another client_random)%s",
+            R->name, sent_cke ? " and answered with its ClientKeyExchange" : " without any error");
+    }
+    world_free_sessions(&w2);
+    matrixSslDeleteKeys(w2.s[0].keys); matrixSslDeleteKeys(w2.s[1].keys);
+    world_free_sessions(&w1);
+    matrixSslDeleteKeys(w1.s[0].keys); matrixSslDeleteKeys(w1.s[1].keys);
+}
+
+static void run_group_r(int ri)
+{
+    char desc[200];
+    static int idx;
+    idx = ri;
+    snprintf(desc, sizeof(desc), "R;c=%d (%s: recorded server flight replayed to a fresh client)", ri, rcfgs[ri].name);
+    mx_fork_case(desc, r_run_case, &idx);
+}
+
+static long ngroups_cases;
 static void run_group(long gi, void *unused)
 {
     long k, lo = gi * 16, hi = lo + 16;
     (void) unused;
+    if (gi >= ngroups_cases)
+    {
+        run_group_r((int) (gi - ngroups_cases));
+        return;
+    }
     if (hi > ncases) hi = ncases;
     for (k = lo; k < hi; k++)
     {
@@ -409,6 +596,20 @@ int main(int argc, char **argv)
     cfg.bound = thorough ? "full product" : "full product over 6 version x key-exchange classes";
     g_dump = 0;
 
+    if (replay && replay[0] == 'R')
+    {
+        mx_result_t r;
+        int ri = 0;
+        if (sscanf(replay, "R;c=%d", &ri) != 1 || ri < 0 || ri >= NRCFG)
+        {
+            return 2;
+        }
+        memset(&r, 0, sizeof(r));
+        snprintf(r.desc, sizeof(r.desc), "%s", replay);
+        r_run_case(&ri, &r);
+        mx_replay_print(&r);
+        return 0;
+    }
     if (replay)
     {
         c_case_t c;
@@ -490,7 +691,8 @@ int main(int argc, char **argv)
             }
         }
     }
-    mx_parallel((ncases + 15) / 16, run_group, NULL);
+    ngroups_cases = (ncases + 15) / 16;
+    mx_parallel(ngroups_cases + NRCFG, run_group, NULL);
     (void) cells;
     return mx_finish(NULL);
 }
